@@ -208,6 +208,69 @@ class Graph:
         return out
 
 
+    def _parsed(self, st):
+        c = self.__dict__.setdefault("_cache", {})
+        if st not in c:
+            c[st] = [(self._norm(json.loads(el)), nxt, el) for el, nxt in self.adj.get(st, [])]
+        return c[st]
+
+    @staticmethod
+    def _norm(c):
+        # the harness writes the number of bytes consumed into the record of a recv call
+        if c.get("op") == "recv" and c.get("val"):
+            c = dict(c)
+            c["val"] = 0
+        return c
+
+    def locate(self, calls):
+        """The model state reached by a recorded history (list of parsed call records), or None if the history is not
+        a path of the explored graph (variants on other instantiations, random histories).  Returns (texts, state)."""
+        for inner, st in self.inits:
+            try:
+                setup = json.loads("[" + inner + "]")
+            except ValueError:
+                continue
+            calls = [self._norm(c) for c in calls]
+            if calls[:len(setup)] != setup:
+                continue
+            texts, cur, ok = [inner] if inner else [], st, True
+            for c in calls[len(setup):]:
+                for obj, nxt, el in self._parsed(cur):
+                    if obj == c:
+                        texts.append(el)
+                        cur = nxt
+                        break
+                else:
+                    ok = False
+                    break
+            if ok:
+                return texts, cur
+        return None
+
+    def neighbourhood(self, texts, st, depth, cap, rng):
+        """Every continuation of the history `texts` (ending in model state st) by up to `depth` model steps - all of
+        them if there are at most `cap`, otherwise all shorter ones and a seeded sample of the longest."""
+        level = [([], st)]
+        out = []
+        for d in range(depth):
+            nxt = []
+            for els, cur in level:
+                for el, t in self.adj.get(cur, []):
+                    nxt.append((els + [el], t))
+            if len(out) + len(nxt) > cap:
+                nxt = rng.sample(nxt, max(0, cap - len(out)))
+                out += nxt
+                break
+            out += nxt
+            level = nxt
+        # only maximal ones need to run (prefixes are replayed on the way)
+        keys = set()
+        for els, _ in out:
+            for i in range(1, len(els)):
+                keys.add(tuple(els[:i]))
+        return ['{"hist":[' + ",".join(texts + els) + ']}' for els, _ in out if tuple(els) not in keys]
+
+
 def maximal_schedules(out_path, tag="E", graph=None):
     """All printed transitions of a TLC run -> (number printed, maximal schedules, parent map).
 
